@@ -60,13 +60,24 @@ ALLOWED_AXIOMS = {
 def log(*a):
     print(*a, file=sys.stderr, flush=True)
 
+def _raise_stack_limit():
+    """child-side: lift the soft stack limit to the hard one (coqc is native code and evaluates deeply nested terms -- a rendered
+    LEF text of a few hundred kilobytes as a list of bytes -- on the system stack: `Error: Stack overflow` at 8 MB)"""
+    try:
+        import resource
+        soft, hard = resource.getrlimit(resource.RLIMIT_STACK)
+        if soft != hard:
+            resource.setrlimit(resource.RLIMIT_STACK, (hard, hard))
+    except Exception:
+        pass
+
 def sh(cmd, timeout=1200, cwd=None, env=None, inp=None):
     e = dict(os.environ)
     e["CARGO_NET_OFFLINE"] = "true"
     if env:
         e.update(env)
     try:
-        p = subprocess.run(cmd, shell=isinstance(cmd, str), cwd=cwd, env=e, input=inp,
+        p = subprocess.run(cmd, shell=isinstance(cmd, str), cwd=cwd, env=e, input=inp, preexec_fn=_raise_stack_limit,
                            stdout=subprocess.PIPE, stderr=subprocess.STDOUT, timeout=timeout, text=True, errors="replace")
         return p.returncode, p.stdout
     except subprocess.TimeoutExpired as ex:
